@@ -238,8 +238,10 @@ func run(env *simrt.Env, sci interface{}) {
 		internals = append(internals, ss...)
 	}
 	internals = internals[:sc.Internal]
+	// 1.2.3.10 is a textual prefix of 1.2.3.100 and 1.2.3.101: keys built from strings must not confuse them
+	remoteIPs := []string{"1.2.3.100", "1.2.3.10", "1.2.3.101"}
 	for h := 0; len(remotes) < sc.Remotes; h++ {
-		ss := mkHost(wan, fmt.Sprintf("1.2.3.%d", 100+h), 7000, 7001)
+		ss := mkHost(wan, remoteIPs[h%len(remoteIPs)], 7000, 7001)
 		if ss == nil {
 			return
 		}
@@ -381,6 +383,34 @@ func run(env *simrt.Env, sci interface{}) {
 						return
 					}
 					env.Probe("reused-port-intact")
+					// every port is held by a live mapping now. At 0.6 L another endpoint needs a
+					// mapping (the search passes over all of them); at 1.2 L without outbound traffic
+					// the mapping of `is` must have ended: its remote is no longer admitted.
+					v1 := env.Now()
+					if d := v0.Add(L * 6 / 10).Sub(v1); d > 0 {
+						env.Sleep(d)
+						pl4, _ := mkPayload()
+						_, _ = internals[0].conn.WriteTo(pl4, &net.UDPAddr{IP: net.ParseIP("1.2.3.100"), Port: 39999})
+						settle()
+						for _, s := range all {
+							s.read = len(s.inbox)
+						}
+						if d2 := v1.Add(L + 5*time.Second).Sub(env.Now()); d2 > 0 {
+							env.Sleep(d2) // v1 is later than the mapping's last refresh
+						}
+						pl5, tag5 := mkPayload()
+						_, _ = rs.conn.WriteTo(append([]byte(nil), pl5...), x)
+						settle()
+						who, _, ok := collect(tag5, pl5)
+						if !ok {
+							return
+						}
+						if len(who) != 0 {
+							env.Fail(prop+"/inbound-admitted-by-expired-mapping", "the mapping of %s on %s saw no outbound traffic for more than its lifetime (%v), only another endpoint's search for a free port in between; its remote %s is still admitted", is.addr, srcX, L, rs.addr)
+							return
+						}
+						env.Probe("port-search-does-not-refresh")
+					}
 				}
 			}
 			// forget everything the model learned in this phase: these flows are not part of the history
